@@ -165,7 +165,9 @@ GENERIC_EQUIV = [
 
 def audit(prop, root="/repo", jobs=None, seed=0):
     from .variants import VARIANTS
-    vs = [dict(v) for v in VARIANTS.get(prop, [])] + seeded_variants(prop, root) + [dict(v) for v in GENERIC_EQUIV]
+    from ..rules.common import anchor_files, EXTRA_SWEPT_FILES
+    vs = [dict(v) for v in VARIANTS.get(prop, [])] + seeded_variants(prop, root) + [dict(v) for v in GENERIC_EQUIV] + \
+        refactoring_variants(prop, root, only_touching=set(anchor_files(prop)) | set(EXTRA_SWEPT_FILES.get(prop, [])))
     if not vs:
         return {"audit": {"variants": 0, "note": "no variants registered for this property"}}
     base = _baseline_keys(prop, root)
